@@ -324,7 +324,14 @@ def packaging_tags(name: str):
             _manylinux._get_glibc_version = lambda: (2, m)
             _manylinux._is_compatible = lambda *a, **k: True
             _manylinux._have_compatible_abi = lambda *a, **k: True
-            return list(_manylinux.platform_tags([arch])) + [f"linux_{arch}"]
+            # packaging's OWN order of the whole list (`_linux_platforms`), not one assembled here: it decides where
+            # `linux_<arch>` goes (first, since packaging 24; known finding G8)
+            import sysconfig
+            from unittest import mock
+            from packaging import _musllinux
+            with mock.patch.object(sysconfig, "get_platform", lambda: f"linux-{arch}"), \
+                    mock.patch.object(_musllinux, "platform_tags", lambda archs: iter(())):
+                return list(pkg_tags._linux_platforms(is_32bit=False))
         finally:
             _manylinux._get_glibc_version, _manylinux._is_compatible, _manylinux._have_compatible_abi = saved
     return None
@@ -369,8 +376,14 @@ def run_c09(run: core.Run) -> None:
         else:
             ref = packaging_tags(name)
             n_oracle += 1
-            if ref is not None and claimed_got != ref:
+            native = [t for t in claimed_got if t.startswith("linux_")]
+            if ref is not None and [t for t in claimed_got if t not in native] != [t for t in ref if t not in native]:
                 f = core.Failure("pkg|" + name, f"{name}: differs from packaging.tags ({ref[:3]}... vs {claimed_got[:3]}...)", rep)
+            elif ref is not None and claimed_got != ref:
+                # same tags, same order among the manylinux tags, `linux_<arch>` elsewhere: known finding G8
+                f = core.Failure("pkg-native|" + name, f"{name}: `{native[0]}` is at position {claimed_got.index(native[0])} of "
+                                 f"{len(claimed_got)}, packaging.tags has it at {ref.index(native[0])}", rep)
+                f.family = "linux-arch-last"
         if f is not None:
             if is_d17(name):
                 f.family = "macos-10-arm64"
